@@ -8,8 +8,15 @@ Definition conflict_guarded (c : cmd) : bool :=
   | CPush _ (Some 0%Z) _ _ _ _ _ _ _ => false            (* `-n 0` is a no-op by design *)
   | CPop _ (Some 0%Z) _ _ _ => false
   | CPush _ _ _ _ _ _ _ _ _ | CPop _ _ _ _ _ | CGoto _ _ _ _ | CFloat _ _ _ | CSink _ _ _ _
-  | CDelete _ _ _ _ _ _ _ _ | CNew _ _ _ | CRefresh | CSpill | CSquash _ _ _ _ => true
+  | CDelete _ _ _ _ _ _ _ _ | CNew _ _ _ | CRefresh | CSpill | CSquash _ _ _ _ | CPick _ _ false => true
   | _ => false
+  end.
+
+(* commands that were not given --conflicts=allow (the flag overrides stgit.push.allow-conflicts) *)
+Definition no_explicit_allow (c : cmd) : bool :=
+  match c with
+  | CPush _ _ _ _ _ _ _ _ (Some true) | CGoto _ _ _ (Some true) | CDelete _ _ _ _ _ _ _ (Some true) => false
+  | _ => true
   end.
 
 (* the refs of the stack *)
